@@ -15,6 +15,7 @@ A replay dict is self-contained:
 import contextlib
 import itertools
 import json
+import os
 import signal
 import threading
 
@@ -848,11 +849,184 @@ def reflected_cases():
                            "left": [[lkeys[i], lvals[i]] for i in range(n_left)], "expr": expr, "ops": []}
 
 
+# --------------------------------------------------------------------------------------------- held items
+
+_TMP = [None]                                               # the sandbox directory of the running rac() / replay()
+_SEQ = [0]
+HELD_RAWS = {"String/strip-X+upper": ["xax", "xbx", "xcx", "xdx", "xex"],
+             "String+suffix-validator": ["a", "b", "c", "d", "e"],
+             "Int+counting-validator": ["1", 2.0, 3, "4", 5],
+             "Filename/not-exists-then-created": ["n1", "n2", "n3", "n4", "n5"],
+             "Filename/startdir": ["r1", "s/../r2", "r3", "r4", "s/../r5"]}
+HELD_DICTS = {"String/strip-X+upper->String+suffix-validator": ("String/strip-X+upper", "String+suffix-validator"),
+              "->Filename/not-exists-then-created": (None, "Filename/not-exists-then-created"),
+              "String/strip-X+upper->": ("String/strip-X+upper", None),
+              "->Int+counting-validator": (None, "Int+counting-validator")}
+
+
+def held_field(name, calls, base):
+    """a field whose normalisation is not idempotent or depends on outside state; every pass through its validation
+    chain is counted in calls[0].  -> (field, once: the reference single-pass normal form, after: state change)"""
+    import cincoconfig as cc
+
+    def count(cfg, value):
+        calls[0] += 1
+        return value
+
+    def suffix(cfg, value):
+        calls[0] += 1
+        return value + "!"
+    if name == "String/strip-X+upper":                      # 'xax' -> 'XAX'; a second pass would give 'A'
+        return cc.StringField(transform_strip="X", transform_case="upper", validator=count), \
+            (lambda r: r.strip("X").upper()), None
+    if name == "String+suffix-validator":
+        return cc.StringField(validator=suffix), (lambda r: r + "!"), None
+    if name == "Int+counting-validator":
+        return cc.IntField(validator=count), int, None
+
+    def resolve(r):
+        return os.path.abspath(os.path.join(base, r))
+    if name == "Filename/not-exists-then-created":          # valid when stored; a second pass would be rejected
+
+        def create(values):
+            for v in values:
+                with open(v, "w") as f:
+                    f.write("x")
+        return cc.FilenameField(exists=False, startdir=base, validator=count), resolve, create
+    if name == "Filename/startdir":
+        return cc.FilenameField(startdir=base, validator=count), resolve, None
+    raise ValueError(name)
+
+
+LIST_HELD_OPS = {   # op -> (method, f(cfg, p, extra raws) -> result list, number of new items, held items expected at)
+    "copy": ("copy", lambda cfg, p, e: p.copy(), 0),
+    "copy().copy()": ("copy", lambda cfg, p, e: p.copy().copy(), 0),
+    "proxy+list": ("__add__", lambda cfg, p, e: p + list(e), 2),
+    "proxy+own-copy": ("__add__", lambda cfg, p, e: p + p.copy(), 0),
+    "list+proxy": ("__radd__", lambda cfg, p, e: list(e) + p, 2),
+    "proxy*2": ("__mul__", lambda cfg, p, e: p * 2, 0),
+    "proxy[:]": ("__getitem__", lambda cfg, p, e: p[:], 0),
+    "extend(own-copy)": ("extend", lambda cfg, p, e: (p.extend(p.copy()), p)[1], 0),
+    "+=(own-copy)": ("__iadd__", lambda cfg, p, e: p.__iadd__(p.copy()), 0),
+    "extend(self)": ("extend", lambda cfg, p, e: (p.extend(p), p)[1], 0),
+    "cfg.f=cfg.f": ("ListField._validate", lambda cfg, p, e: (setattr(cfg, "f", cfg.f), cfg.f)[1], 0),
+    "cfg.f=cfg.f.copy()": ("ListField._validate", lambda cfg, p, e: (setattr(cfg, "f", cfg.f.copy()), cfg.f)[1], 0),
+}
+DICT_HELD_OPS = {
+    "copy": ("copy", lambda cfg, p, e: p.copy(), 0),
+    "proxy|dict": ("__or__", lambda cfg, p, e: p | dict(e), 2),
+    "proxy|own-copy": ("__or__", lambda cfg, p, e: p | p.copy(), 0),
+    "update(own-copy)": ("update", lambda cfg, p, e: (p.update(p.copy()), p)[1], 0),
+    "|=(own-copy)": ("__ior__", lambda cfg, p, e: p.__ior__(p.copy()), 0),
+    "update(self)": ("update", lambda cfg, p, e: (p.update(p), p)[1], 0),
+    "cfg.f=cfg.f": ("DictField._validate", lambda cfg, p, e: (setattr(cfg, "f", cfg.f), cfg.f)[1], 0),
+    "cfg.f=cfg.f.copy()": ("DictField._validate", lambda cfg, p, e: (setattr(cfg, "f", cfg.f.copy()), cfg.f)[1], 0),
+}
+HELD_SHAPE = {"copy": 1, "copy().copy()": 1, "proxy+list": "prefix", "proxy+own-copy": 2, "list+proxy": "suffix",
+              "proxy*2": 2, "proxy[:]": 1, "extend(own-copy)": 2, "+=(own-copy)": 2, "extend(self)": 2,
+              "cfg.f=cfg.f": 1, "cfg.f=cfg.f.copy()": 1, "proxy|dict": "prefix", "proxy|own-copy": 1,
+              "update(own-copy)": 1, "|=(own-copy)": 1, "update(self)": 1}
+
+
+def run_held(case):
+    """copies and concatenations of a proxy whose item normalisation is not idempotent / has state: the result is
+    what the built-in gives over the items the proxy HOLDS; held items are not passed through validation again"""
+    import cincoconfig as cc
+    is_list = case["kind"] == "held-list"
+    _SEQ[0] += 1
+    base = os.path.join(_TMP[0], "held", str(_SEQ[0]))
+    os.makedirs(os.path.join(base, "s"))
+    calls = [0]
+    n, opname = case["n"], case["op"]
+    schema = cc.Schema()
+    if is_list:
+        field, once, after = held_field(case["field"], calls, base)
+        schema.f = cc.ListField(field, default=lambda: [])
+        raws = HELD_RAWS[case["field"]]
+        cfg = schema()
+        cfg.f = list(raws[:n])
+        held = list(cfg.f)
+        want0 = [once(r) for r in raws[:n]]
+        extra = raws[3:5]
+        if after:
+            after(held)
+        meth, f, new = LIST_HELD_OPS[opname]
+        cls = "fields.list_field:ListProxy"
+    else:
+        kname, vname = HELD_DICTS[case["field"]]
+        kf, konce, _ = held_field(kname, calls, base) if kname else (None, lambda r: r, None)
+        vf, vonce, after = held_field(vname, calls, base) if vname else (None, lambda r: r, None)
+        schema.f = cc.DictField(kf, vf, default=lambda: {})
+        kraws = HELD_RAWS[kname] if kname else ["k1", "k2", "k3", "k4", "k5"]
+        vraws = HELD_RAWS[vname] if vname else [1, "v", [2], 4, "w"]
+        cfg = schema()
+        cfg.f = {kraws[i]: vraws[i] for i in range(n)}
+        held = list(cfg.f.items())
+        want0 = [(konce(kraws[i]), vonce(vraws[i])) for i in range(n)]
+        extra = [(kraws[i], vraws[i]) for i in (3, 4)]
+        if after:
+            after([v for _, v in held])
+        meth, f, new = DICT_HELD_OPS[opname]
+        cls = "fields.dict_field:DictProxy"
+    ob = "%s.%s" % (cls, meth) if "Field." not in meth else "fields.%s:%s" % (
+        "list_field" if is_list else "dict_field", meth)
+    wk = "non-idempotent-items:%s/%s" % (opname, case["field"])
+    fails = []
+    if not same(held, want0):                               # precondition of the scenario, not the clause under test
+        return [{"obligation": ob + "/pre:C17.held-items-normalised-once", "witness_key": wk, "step": 0,
+                 "what": "storing %s gave %s, one pass of the normal form gives %s" % (
+                     short(raws[:n] if is_list else extra), short(held), short(want0))}], 1
+    before = calls[0]
+    try:
+        res = f(cfg, cfg.f, extra)
+    except Exception as e:
+        return [{"obligation": ob + "/raise:C17.held-items-taken-as-they-are", "witness_key": wk, "step": 0,
+                 "what": "%s on a proxy holding %s raises %s: %s" % (opname, short(held), type(e).__name__,
+                                                                     short(str(e)))}], 1
+    got = list(res) if is_list else list(res.items())
+    shape = HELD_SHAPE[opname]
+    if shape == "prefix":
+        ok = same(got[:len(held)], held) and len(got) == len(held) + len(extra)
+        want = "%s + %d new" % (short(held), len(extra))
+    elif shape == "suffix":
+        ok = same(got[len(got) - len(held):], held) and len(got) == len(held) + len(extra)
+        want = "%d new + %s" % (len(extra), short(held))
+    else:
+        ok = same(got, held * shape if is_list else held)
+        want = short(held * shape if is_list else held)
+    if not ok:
+        fails.append({"obligation": ob + "/post:C17.held-items-kept", "witness_key": wk,
+                      "what": "%s on a proxy holding %s: expected %s, got %s" % (opname, short(held), want,
+                                                                                 short(got))})
+    grown = calls[0] - before
+    allowed = new * (1 if is_list else 2)
+    if grown > allowed:
+        fails.append({"obligation": ob + "/post:C17.held-items-not-revalidated", "witness_key": wk,
+                      "what": "%s on a proxy holding %d items ran the item validator %d times (at most %d new items)"
+                              % (opname, len(held), grown, allowed)})
+    for x in fails:
+        x["step"] = 0
+    return fails, 1
+
+
+def held_cases():
+    for field in HELD_RAWS:
+        for n in range(4):
+            for op in LIST_HELD_OPS:
+                yield {"kind": "held-list", "field": field, "n": n, "op": op, "init": [], "ops": []}
+    for field in HELD_DICTS:
+        for n in range(4):
+            for op in DICT_HELD_OPS:
+                yield {"kind": "held-dict", "field": field, "n": n, "op": op, "init": [], "ops": []}
+
+
 def run_case(case):
     """-> (failures, steps run).  A failure: {"obligation", "witness_key", "what", "step"}; stops at the first
     failing step (the two sides have diverged)."""
     if case["kind"].startswith("reflected"):
         return run_reflected(case)
+    if case["kind"].startswith("held"):
+        return run_held(case)
     is_list = case["kind"] == "list"
     c = (ListCase if is_list else DictCase)(case["field"], case["init"])
     cls = "fields.list_field:ListProxy" if is_list else "fields.dict_field:DictProxy"
@@ -945,6 +1119,7 @@ def pairs2(full, small, wide, main):
 def cases(tier):
     F = _fields()
     yield from reflected_cases()
+    yield from held_cases()
     for field in LIST_FIELDS:
         pool = F[field][1]
         full, small = list_ops(field, 0), list_ops(field, 1)
@@ -1018,7 +1193,12 @@ def rac(tier="quick", seed=0):
               "reversed(p), == both ways, n * p, p * n; dict | p, p | dict, dict |= p, {**d, **p}, dict(p), "
               "dict.update(p), ==) for plain operands of 0..3 distinct items and proxies of 0..3 items, against the "
               "same expression on the built-in (a TypeError must be a TypeError; result typedness not asserted); "
-              "all sequences of length 1 from an empty "
+              "copies and concatenations of proxies holding 0..3 items of fields whose normalisation is not "
+              "idempotent or has state (strip 'X' + upper, suffixing / counting validator, FilenameField(exists=False) "
+              "after the files were created, FilenameField(startdir)): copy, + list, + own copy, list + p, * 2, [:], "
+              "extend / += own copy, extend(self), cfg.f = cfg.f (.copy()); dict copy, | dict, | own copy, update / "
+              "|= own copy, update(self), cfg.f = cfg.f (.copy()): held items are kept exactly and not validated "
+              "again (validator call count); all sequences of length 1 from an empty "
               "and a populated value, of length 2 over the full pool from the populated value for three fields of each "
               "kind (full x reduced and reduced x full for the other two; reduced pool from the other initial "
               "values), of length 3 over a reduced pool of 20 (list) / 18 (dict) operations for three fields of each "
@@ -1030,7 +1210,8 @@ def rac(tier="quick", seed=0):
     _SCHEMAS.clear()
     del UNDECIDED[:]
     NONTERMINATING.clear()
-    with sandbox():
+    with sandbox() as tmp:
+        _TMP[0] = tmp
         for case in cases(tier):
             steps += _one(rec, case)
         if tier != "quick":
@@ -1079,7 +1260,7 @@ def _one(rec, case):
 def _shrink(rp):
     """drop leading operations / the initial contents while the same (obligation, witness) still fails"""
     best = rp
-    if rp["kind"].startswith("reflected"):
+    if rp["kind"].startswith(("reflected", "held")):
         return rp
     for cand in (dict(rp, ops=rp["ops"][-1:]), dict(rp, ops=rp["ops"][-1:], init=[]), dict(rp, init=[])):
         if len(json.dumps(cand)) < len(json.dumps(best)) and _fails(cand):
@@ -1095,9 +1276,13 @@ def _fails(case):
 
 def replay(case):
     """re-execute one replay dict on the current /repo"""
-    with sandbox():
-        hit = _fails(case)
-        other = [] if hit else run_case(case)[0]
+    with sandbox() as tmp:
+        outer, _TMP[0] = _TMP[0], tmp
+        try:
+            hit = _fails(case)
+            other = [] if hit else run_case(case)[0]
+        finally:
+            _TMP[0] = outer
     return {"fails": bool(hit), "expected": "the proxy behaves like the built-in holding the normalised items",
             "observed": hit[0]["what"] if hit else "no failure of %s (other failures: %s)" % (
                 case.get("obligation"), [f["obligation"] for f in other])}
